@@ -170,7 +170,7 @@ func execOp(op string) (out string) {
 		return execProc(args)
 	case "facts":
 		return "facts=1"
-	case "eval", "evalc", "see", "tt", "order", "time", "go", "gof", "prep":
+	case "eval", "evalc", "see", "tt", "order", "time", "go", "gof", "gotime", "prep":
 		return execEngine(args)
 	}
 	return "bad-op"
